@@ -17,7 +17,8 @@ CLAIMS = {
             'the derive_builder validate functions refuse exactly the requests that lack a mandatory part. In unit handle/context: each request becomes one message, written by one write() call as a whole packet, in submission order. '
             'Unit opts: every public method of ConnectOpts/AuthOpts/PublishOpts/SubscribeOpts/SubscriptionOpts/UnsubscribeOpts/DisconnectOpts (71 functions of client/opts.rs) sets exactly the one builder slot it documents to the wrapper of the caller\'s value '
             '(whole-builder postcondition, documented panic conditions as preconditions), subscription option bits at the standard\'s positions, and build() is Ok exactly when the mandatory parts are there and carries every slot into the Tx struct (over the assumed derive_builder build contract). '
-            'The contracts of the option stand-ins used by unit handle are the same text (//@splice) and are proved in unit opts.', '5 C01'),
+            'The contracts of the option stand-ins used by unit handle are the same text (//@splice) and are proved in unit opts. '
+            'Unit roundtrip: pure lemmas that the encoding spec and the parsing spec agree (the real decoder run on the bytes the encoder is proved to write returns the supplied values) for primitives, all property wrappers, property sections, PUBACK family, DISCONNECT, AUTH, PUBLISH.', '5 C01'),
     'C02': ('proof', 'Verus discharges, on the real TryDecode impls of all eleven inbound packet types, of RxPacket::try_decode (dispatcher) and of every primitive/property decoder, extracted from the working tree, for ALL byte strings with no bound, '
             'two contracts written from the standard: soundness (an accepted packet has exactly the field values the bytes denote: fixed-header bits, identifiers, reason codes, every property by identifier, repeated user properties and '
             'subscription identifiers all kept in order, absent properties read as the standard defaults) and acceptance (every well-formed packet, incl. the shortened PUBACK-family/AUTH/DISCONNECT forms, any legal property set in any order, MUST decode Ok), '
